@@ -80,7 +80,7 @@ FAILS = ((), (("User", "name"),), (("User", "age"),), (("Query", "me"),), (("Dog
 _BASE = {"Int": Int, "String": String, "Boolean": Boolean, "ID": ID, "Float": Float}
 
 
-def build_real_schema(fail=()):
+def build_real_schema(fail=(), directives=None):
     """the same schema as py_gql objects; resolvers: default (mapping lookup) except FNS and failing fields"""
     fail = set(fail)
     types = {}
@@ -130,7 +130,7 @@ def build_real_schema(fail=()):
     for name, t in MODEL.items():
         if t["kind"] == "union":
             types[name] = UnionType(name, [types[m] for m in t["members"]])
-    return Schema(types["Query"], mutation_type=types["Mutation"], types=list(types.values()))
+    return Schema(types["Query"], mutation_type=types["Mutation"], types=list(types.values()), directives=directives)
 
 
 # (document, variables) - every one valid against the schema
